@@ -70,6 +70,13 @@ func (l *Log) EventInts(tag string, v ...int64) {
 	l.n++
 }
 
+// Violation records a violation: only the class is hashed (messages may
+// contain addresses from panic stacks), the message is kept as a note.
+func (l *Log) Violation(class, msg string) {
+	l.Event("VIOLATION " + class)
+	l.Note("  %s", msg)
+}
+
 // Note adds a line to the kept trace only; it is not an event (never hashed),
 // so tracing cannot perturb the event log.
 func (l *Log) Note(format string, a ...interface{}) {
